@@ -168,11 +168,48 @@ def hash_order_uses(tree):
     return out
 
 
-def prefix_is_pure(fn, stop_call=("copy", "deepcopy"), allowed_calls=("isinstance", "len", "ValueError", "TypeError")):
+def _stmts_pure(stmts, allowed_calls, cls, depth, findings, where=""):
+    """no store to an attribute / subscript, no delete, no call other than the allowed builtins,
+    exception constructors and - followed into their bodies - methods of the same class"""
+    for stmt in stmts:
+        for n in ast.walk(stmt):
+            targets = []
+            if isinstance(n, ast.Assign):
+                targets = n.targets
+            elif isinstance(n, (ast.AugAssign, ast.AnnAssign)):
+                targets = [n.target]
+            elif isinstance(n, ast.Delete):
+                targets = n.targets
+            for t in targets:
+                for x in ast.walk(t):
+                    if isinstance(x, (ast.Attribute, ast.Subscript)) and isinstance(getattr(x, "ctx", None), (ast.Store, ast.Del)):
+                        findings.append((x.lineno, f"store to {ast.unparse(x)} before the arguments are validated{where}"))
+            if isinstance(n, (ast.Global, ast.Nonlocal)):
+                findings.append((n.lineno, f"{type(n).__name__.lower()} declaration{where}"))
+            if isinstance(n, ast.Call):
+                f = n.func
+                if isinstance(f, ast.Name):
+                    if f.id not in allowed_calls:
+                        findings.append((n.lineno, f"call to {f.id}() in the validation prefix{where}"))
+                elif isinstance(f, ast.Attribute):
+                    if isinstance(f.value, ast.Name) and f.value.id == "self" and f"self.{f.attr}" in allowed_calls:
+                        continue
+                    helper = None
+                    if cls is not None and isinstance(f.value, ast.Name) and f.value.id in ("self", "cls", cls.name):
+                        helper = next((m for m in cls.body if isinstance(m, ast.FunctionDef) and m.name == f.attr), None)
+                    if helper is not None and depth > 0:
+                        # a helper of the same class: the frame condition is checked on its body
+                        _stmts_pure(helper.body, allowed_calls, cls, depth - 1, findings, where=f" (in {cls.name}.{helper.name})")
+                        continue
+                    findings.append((n.lineno, f"call to {ast.unparse(f)}() in the validation prefix{where}"))
+
+
+def prefix_is_pure(fn, stop_call=("copy", "deepcopy"), allowed_calls=("isinstance", "len", "ValueError", "TypeError"), cls=None):
     """Frame scan for a validation prefix: the statements of `fn` before the first
     statement that calls <stop_call> may not store to an attribute or subscript, delete,
-    or call anything but the allowed builtins / exception constructors and `self.<method>`
-    listed in allowed_calls.  Returns (findings, number of prefix statements)."""
+    or call anything but the allowed builtins / exception constructors, `self.<method>`
+    listed in allowed_calls, and methods of the same class `cls` whose own bodies satisfy
+    the same condition.  Returns (findings, number of prefix statements)."""
     findings = []
     nprefix = 0
 
@@ -186,27 +223,7 @@ def prefix_is_pure(fn, stop_call=("copy", "deepcopy"), allowed_calls=("isinstanc
         if is_stop(stmt):
             break
         nprefix += 1
-        for n in ast.walk(stmt):
-            targets = []
-            if isinstance(n, ast.Assign):
-                targets = n.targets
-            elif isinstance(n, (ast.AugAssign, ast.AnnAssign)):
-                targets = [n.target]
-            elif isinstance(n, ast.Delete):
-                targets = n.targets
-            for t in targets:
-                for x in ast.walk(t):
-                    if isinstance(x, (ast.Attribute, ast.Subscript)) and isinstance(getattr(x, "ctx", None), (ast.Store, ast.Del)):
-                        findings.append((x.lineno, f"store to {ast.unparse(x)} before the arguments are validated"))
-            if isinstance(n, ast.Call):
-                f = n.func
-                if isinstance(f, ast.Name):
-                    if f.id not in allowed_calls:
-                        findings.append((n.lineno, f"call to {f.id}() in the validation prefix"))
-                elif isinstance(f, ast.Attribute):
-                    if isinstance(f.value, ast.Name) and f.value.id == "self" and f"self.{f.attr}" in allowed_calls:
-                        continue
-                    findings.append((n.lineno, f"call to {ast.unparse(f)}() in the validation prefix"))
+        _stmts_pure([stmt], allowed_calls, cls, 3, findings)
     else:
         findings.append((fn.lineno, "no call to copy.deepcopy found: cannot delimit the validation prefix"))
     return findings, nprefix
